@@ -301,6 +301,17 @@ func genE2E(t *rapid.T) e2eCase {
 		}
 		c.Sched = append(c.Sched, p)
 	}
+	if c.Groups >= 3000 {
+		// one aggregate message per group and transmission: a delay per merge attempt would only make the harness
+		// slow (12000 groups x 5 ms = 60 s per transmission), not perturb anything
+		var kept []string
+		for _, p := range c.Sched {
+			if !strings.HasPrefix(p, "cli.merge") {
+				kept = append(kept, p)
+			}
+		}
+		c.Sched = kept
+	}
 	c.Load = rapid.SampledFrom([]int{0, 0, 0, 2, 4}).Draw(t, "load")
 	c.Query = rapid.IntRange(0, 2).Draw(t, "query")
 	if c.Groups <= 40 && rapid.IntRange(0, 2).Draw(t, "genq") == 0 {
